@@ -494,13 +494,27 @@ def synthetic_recipes():
         "features": [{"tag": "liga", "lookups": [0, 1, 2]}],
         "lookups": [lig(1, [1] * 14, 2, 8), lig(2, [2] * 17, 3, 8), lig(3, [3] * 2, 4, 8)]}},
         [[(P, 270)], [(P, 273)], [(P, 15), P + 4] * 18 + [P + 4], [(P, 270), P + 4, (P, 270), P + 4, (P, 270), P + 4], [(P, 2000)]])
+    # AAT tracking with degenerate size lists (one size: D55; two equal sizes; descending sizes), a point size set
+    import struct as _st
+    def trak(sizes, vals):
+        ns = len(sizes)
+        size_off = 12 + 8 + 8
+        recs = _st.pack(">iHH", 0, 256, size_off + 4 * ns)
+        hor = _st.pack(">HHI", 1, ns, size_off) + recs + b"".join(_st.pack(">i", z << 16) for z in sizes) + b"".join(_st.pack(">h", v) for v in vals)
+        return _st.pack(">IHHHH", 0x00010000, 0, 12, 0, 0) + hor
+    for nm, sizes, vals in (("one-size", [12], [85]), ("equal-sizes", [12, 12], [85, -40]), ("descending-sizes", [24, 12, 6], [10, 20, 30])):
+        R["trak-" + nm] = ({"num_glyphs": 4, "cmap": "pua", "tables": {"trak": trak(sizes, vals)}}, [[P, P + 1], [(P, 50)]], "ptem=12")
+        R["trak-" + nm + "-small"] = ({"num_glyphs": 4, "cmap": "pua", "tables": {"trak": trak(sizes, vals)}}, [[P, P + 1]], "ptem=1")
+        R["trak-" + nm + "-large"] = ({"num_glyphs": 4, "cmap": "pua", "tables": {"trak": trak(sizes, vals)}}, [[P, P + 1]], "ptem=4000")
     return R
 
 
 def synthetic_lines():
     import fontbuild
     L = []
-    for name, (recipe, texts) in sorted(synthetic_recipes().items()):
+    for name, item in sorted(synthetic_recipes().items()):
+        recipe, texts = item[0], item[1]
+        extra = (" " + item[2]) if len(item) > 2 else ""
         try:
             data = fontbuild.build(recipe)
         except Exception as e:          # a recipe the builder cannot serialise is a harness problem, not a finding
@@ -511,7 +525,7 @@ def synthetic_lines():
             open(p, "wb").write(data)
         for t in texts:
             for cfg in ("- - - 0 0 - - -", "r - - 3 1 - - -"):
-                L.append(f"c01 {spec(p)} {cfg} {rle(t)} ser=1")
+                L.append(f"c01 {spec(p)} {cfg} {rle(t)} ser=1{extra}")
     return L
 
 
